@@ -597,6 +597,11 @@ def check_records(what, o, ch, ref, refs, latest, model, add, here, counters):
             counters['failed_attempt_since_success'] += 1
             if what == 'log':
                 continue
+        if what == 'log' and t['spec'].get('mem_opt'):
+            # an in-memory data class that only `run` can create (constructor arguments): there is no data object to collect the log before the run
+            # starts; what `task.log` gives for such a class is not specified
+            counters['logs_not_judged_data_object_created_by_run'] += 1
+            continue
         ob = ch['objs'][n]
         if what == 'run_info':
             info = o['run_info'].get(n)
